@@ -29,3 +29,8 @@ claim('C05',
       'disallowed-API (who-may-call) rule on socket reads, forward-slice error-discipline rule, interval analysis proving the cap guard dominates the allocation, per-FrameMode width-table extraction and sibling comparison, wire-signature equality of the two writers',
       'Decided from MIR: the framing read path (framing.rs, transport.rs, connection.rs) calls only exact-read primitives, so chunk-invariance reduces to tokio\'s read_exact contract; no read result is discarded (EOF inside a frame is an error); in both frame readers the wire length is bounded by a constant cap on every path to the body allocation; the prefix width per FrameMode agrees across length_prefix_size / frame_message / write_framed / read_framed (2 and 4 bytes, big-endian) and in the node\'s second reader; the one-shot framer and the streaming writer write prefix(len(data)) ++ data and nothing else. Not decided: tokio I/O behaviour, Pending scheduling.',
       NOTE, 'DESIGN.md §4 C05')
+
+claim('C17',
+      'acquire/release pairing on all exits with variant-tracking path feasibility (Result state of the awaited receiver), provenance of key/sender/receiver, format-template comparison across sites, consuming-lookup table rule',
+      'Decided from the MIR of the async bodies: after pending_rpcs.insert(k, tx) every exit of rpc_call_raw_with_timeout either passed pending_rpcs.remove(k) (same key value) or is reached only after the awaited receiver completed, i.e. the router had consumed the entry (the sender lives only in the map); the key is formatted from the pid freshly returned by allocate() (unique by C16), one oneshot channel per call with the sender moved into the map and the receiver awaited under a timeout; caller and router build the key with the same template over the same fields; the router uses a consuming remove and sends on the removed sender, so duplicate/late replies find nothing. Cancellation at await points is reported as information. Not decided: reply histories under real concurrency.',
+      NOTE, 'DESIGN.md §4 C17')
